@@ -23,6 +23,14 @@ func CmdWord(word string, pt CmdPatterns) string {
 	if strings.HasPrefix(word, "'") {
 		return word[1:]
 	}
+	// "text matched by the configured pattern": the pattern as a unit, whatever its shape (`a|b` too)
+	unit := func(p string) string {
+		if p == "" {
+			return ""
+		}
+		return "(?:" + p + ")"
+	}
+	pt = CmdPatterns{Evasion: unit(pt.Evasion), Suffix: unit(pt.Suffix), NoSpaceSuffix: unit(pt.NoSpaceSuffix)}
 	stripped, suffix := word, ""
 	if n := len(word); n >= 2 {
 		bs := 0
